@@ -119,6 +119,25 @@ def run_case(job):
                 else:
                     sim.add_neumann(nodes, [5.0, -2.0, 0.0][: len(unk)] if vec else [5.0], unk, **kw)
         F = sim.Bc_vector_Neumann(*kw.values()).reshape(mesh.Nn, -1)
+        if i % 3 == 0 and c["kind"] in ("lineLoad", "surfLoad", "volumeLoad", "pressure"):
+            # a load is linear in its intensity (Loads.tla: the resultant is the integral of the density): the same load with the
+            # intensity multiplied by 1e-9 gives the nodal forces multiplied by 1e-9, node by node
+            FAC = 1e-9
+            if c["kind"] == "pressure":
+                vs = None
+            elif c["form"] == "func":
+                vs = [(lambda x, y, z, d_=d: d_(x, y, z) * FAC) for d in vals]
+            else:
+                vs = [np.asarray(v) * FAC if isinstance(v, np.ndarray) else v * FAC for v in vals]
+            with quiet():
+                sim.Bc_Init()
+                if c["kind"] == "pressure":
+                    sim.add_pressureLoad(nodes, 1.0 * FAC, **kw)
+                else:
+                    {"lineLoad": sim.add_lineLoad, "surfLoad": sim.add_surfLoad, "volumeLoad": sim.add_volumeLoad}[c["kind"]](nodes, vs, unk, **kw)
+            Fs = sim.Bc_vector_Neumann(*kw.values()).reshape(mesh.Nn, -1)
+            if np.abs(Fs - FAC * F).max() > 1e-10 * FAC * max(np.abs(F).max(), 1e-300):
+                viol.append((f"small-intensity/{key}", f"{key}: the load with its intensity multiplied by {FAC:g} does not give the nodal forces multiplied by {FAC:g} (max relative difference {np.abs(Fs - FAC * F).max() / (FAC * np.abs(F).max()):.3g})", {"case": case, "elem": elem}))
         R = F.sum(0)
         exp = np.array([f2(q) for q in case["resultant"]])[: len(unk)]
         if c["kind"] == "point" and vec and dim == 3:
